@@ -12,6 +12,7 @@ import Tahoe.Mutable.PublishRun
             | sh@srv:L:T|F (executed — wrote or refused — and the answer lost)
         → as `pub`, plus ;slots that now hold the new version (sorted, srv.sh)
     `proxy A:T|F:rd | B | L:T|F`  → what the write proxy's Deferred fires with: answer:T|F:rd or failure
+    `wog GOAL`  → the write proxies `publish()` creates for a goal (sorted sh@srv)
     `goal TOTAL BAD FULL GOAL`
         BAD = server list, FULL = srv:T|F,… (permuted list with upload_permitted()), GOAL = srv.sh,…
         → new goal (sorted srv.sh) or `NotEnoughServersError` -/
@@ -101,6 +102,10 @@ def handle : List String → String
       | some (wrote, rd) => "answer:" ++ (if wrote then "T" else "F") ++ ":" ++
           joinOr "," ((sortBy pairLt rd).map (fun x => s!"{x.1}={x.2}"))
       | none => "failure")
+    | none => "bad-op"
+  | ["wog", goal] =>
+    match parseList (parsePair ".") "," goal with
+    | some g => joinOr "," ((sortBy pairLt ((writersOfGoal g).map (fun w => (w.shnum, w.server)))).map (fun x => s!"{x.1}@{x.2}"))
     | none => "bad-op"
   | ["goal", total, bad, full, goal] =>
     match (do
